@@ -36,6 +36,9 @@
 (*   Import        image.go:ImageImport, OCI branch (blobs while reading   *)
 (*                 the tar, manifests afterwards, innermost first, the     *)
 (*                 selected manifest by digest and finally by tag)         *)
+(*   Retag         image.go:imageCopyOpt inside one repository (only the   *)
+(*                 top manifest is pushed under the new tag)               *)
+(*   BlobDel       scheme/ocidir/blob.go:BlobDelete (os.Remove)            *)
 (*   PutParts      the driver's piecewise push (harness/cmd/c07drv)        *)
 (* Readers: Readable = ocidir.go:valid + readIndex; ManifestHead by tag /  *)
 (* by digest = manifest.go:ManifestHead; BlobHead = blob.go:BlobHead.      *)
